@@ -48,6 +48,13 @@ Theorem C05_named_stream_moved : forall cfg th lg sv tag pre post,
 Proof. exact named_moved_same. Qed.
 Print Assumptions C05_named_stream_moved.
 
+(* the declaration form of a named stream does not matter: `auto s = L::sv(tag) << pre…;` and `auto&& s = L::sv(tag) << pre…;`
+   followed by `s << post…;` deliver once, at the end of the scope, with all items *)
+Theorem C05_named_stream_from_chain : forall cfg th lg sv tag pre post,
+  exec_named_from_chain cfg th lg sv tag pre post = spec_stmt cfg th lg sv tag (pre ++ post).
+Proof. exact named_from_chain_same. Qed.
+Print Assumptions C05_named_stream_from_chain.
+
 (* the message is the concatenation, in order, of everything streamed — as long as no item makes the statement's
    std::stringstream fail (a null const char*, a null streambuf*, a user operator<< setting failbit); after such an item the
    standard stream writes nothing more (modelled as the code behaves; not part of the property's claim) *)
